@@ -9,8 +9,8 @@
    Fewer than two samples with coordinates given: NumPy fails with IndexError (`diffx[0]` of an empty np.diff)
    before it reaches its own "at least (edge_order + 1) elements" ValueError; inflection_points mirrors that,
    point_of_max_acceleration raises its own ValueError first.
-   Not modelled: coordinates with a repeated value (x[i+1] = x[i]): NumPy divides by zero and produces
-   nan/inf; the top-level functions return `Ok None` ("outside the model") there, never a quotient by zero.
+   Not modelled: run coordinates that are not strictly monotone (a repeated value or a turn-back makes a spacing
+   dx1, dx2 or dx1 + dx2 zero): NumPy divides by zero and produces nan/inf; the top-level functions return `Ok None` ("outside the model") there, never a quotient by zero.
    point_of_max_acceleration: the optional `subdivide_by_length` step (Polyline.subdivided_by_length, modelled
    under C08) is outside this model: the model is the function with subdivide_by_length=None. *)
 From Coq Require Import ZArith List Bool Arith.
@@ -42,12 +42,21 @@ Section Inflection.
   Definition gradient (xs fs : list F) : list F :=
     map (grad_at xs fs (length fs)) (seq 0 (length fs)).
 
-  (* the model only promises anything for strictly increasing coordinates *)
+  (* strictly increasing / decreasing coordinates *)
   Fixpoint increasing_b (xs : list F) : bool :=
     match xs with
     | a :: ((b :: _) as r) => nltb O a b && increasing_b r
     | _ => true
     end.
+
+  Fixpoint decreasing_b (xs : list F) : bool :=
+    match xs with
+    | a :: ((b :: _) as r) => nltb O b a && decreasing_b r
+    | _ => true
+    end.
+  (* the domain of the model: the run coordinate is strictly monotone along the curve (either direction); then no
+     spacing dx1, dx2 or dx1 + dx2 in np.gradient is zero *)
+  Definition monotone_b (xs : list F) : bool := increasing_b xs || decreasing_b xs.
 
   Definition coords (pts : list (vec3 F)) (axis : vec3 F) : list F := map (fun p => vdot O p axis) pts.
 
@@ -65,7 +74,7 @@ Section Inflection.
   (* indices of the returned rows (the rows themselves are `take pts indices`) *)
   Definition inflection_points (pts : list (vec3 F)) (rise run : vec3 F) : result (option (list nat)) :=
     if Nat.ltb (length pts) 2 then Raise IndexError   (* np.gradient: diffx[0] of an empty np.diff -- not a ValueError *)
-    else if increasing_b (coords pts run) then Ok (Some (inflection_indices pts rise run))
+    else if monotone_b (coords pts run) then Ok (Some (inflection_indices pts rise run))
     else Ok None.
 
   (* valid[i] = roll(d1, 1)[i] > 0 and roll(d1, -1)[i] > 0, then valid[0] = valid[-1] = False:
@@ -91,7 +100,7 @@ Section Inflection.
   (* Ok (Some (Some i)): row i is returned; Ok (Some None): the function returns None; Ok None: outside the model *)
   Definition point_of_max_acceleration (pts : list (vec3 F)) (rise run : vec3 F) : result (option (option nat)) :=
     if Nat.ltb (length pts) 2 then Raise ValueError
-    else if increasing_b (coords pts run) then Ok (Some (max_acceleration_index pts rise run))
+    else if monotone_b (coords pts run) then Ok (Some (max_acceleration_index pts rise run))
     else Ok None.
 
   (* ---- specification vocabulary used by the statements in props/C20.v ---------------------------------------- *)
